@@ -97,5 +97,10 @@ std::string workDir();
 extern int g_resultFd;
 void emitResultAndExit(const Result& res);
 
+/** Component harnesses without sim points: report a hang as a violation after `seconds` of wall-clock time
+ *  (the result line is prepared in advance; the SIGALRM handler only writes it). */
+void armHangWatchdog(int seconds, const std::string& property, const std::string& vclass, const std::string& detail);
+void disarmHangWatchdog();
+
 } // namespace vf
 #endif
